@@ -44,10 +44,17 @@ FAULTS = {
     'draw-outside-montecarlo': ('draw', 'xi', 'NORMAL'),
     'rv-outside-integrate': ('rv', 'omega'),
     'panel-variable-outside-trajectory': ('var', 'x1'),
+    'logit-availabilities-not-matching-utilities': ('badlogit', 'availability-keys'),
+    'logit-utility-without-availability': ('badlogit', 'utility-keys'),
+    'logit-choice-outside-utilities': ('badlogit', 'choice-values'),
 }
 ELEMENT = {'absent-column': 'ghost', 'name-for-two-kinds': 'x1', 'draw-outside-montecarlo': 'xi',
-           'rv-outside-integrate': 'omega', 'panel-variable-outside-trajectory': 'x1'}
-REFERENCE_FAULTS = ('absent-column', 'name-for-two-kinds')
+           'rv-outside-integrate': 'omega', 'panel-variable-outside-trajectory': 'x1',
+           'logit-availabilities-not-matching-utilities': 'alternatives', 'logit-utility-without-availability': 'alternatives',
+           'logit-choice-outside-utilities': 'alternative'}
+# judged at every entry point (the library has explicit code to report them there)
+REFERENCE_FAULTS = ('absent-column', 'name-for-two-kinds', 'logit-availabilities-not-matching-utilities',
+                    'logit-utility-without-availability', 'logit-choice-outside-utilities')
 BIOGEME_ENTRIES = ('biogeme_expr', 'biogeme_dict', 'biogeme_dict_weight')
 EXPR_ENTRIES = ('get_value_c', 'get_value_and_derivatives')
 
@@ -218,6 +225,18 @@ def run_task(task):
     return rec.result()
 
 
+def on_abort(task, info):
+    """A worker died while running the task.  Where the engine is expected to refuse (a missing-data code that is read,
+    a draw / integration variable evaluated outside its operator, the sticky-error history) the pre-built engine
+    occasionally takes the whole process down instead of raising: no number was produced, so the statement is not
+    contradicted; it is counted, not reported.  Anywhere else a dying worker is a harness error."""
+    if task.get('part') == 'missing' and md_expect_error(task):
+        return {}
+    if task.get('part') in ('plant_engine', 'sticky'):
+        return {}
+    return None
+
+
 def site_name(p, s):
     return f'{p}[{G.slot_name(p, s)}]'
 
@@ -230,7 +249,7 @@ def _judge(rec, fault, entry, p, s, wrapper, term, panel, case):
         out = enter(entry, term, panel=panel)
     except Exception as e:
         if is_library_error(e):
-            named = ELEMENT[fault] in str(e)
+            named = ELEMENT[fault].lower() in str(e).lower()
             rec.case(key, (fault, entry, p, s, wrapper, 'BiogemeError', named), outcome=('refused', named))
             if not named:
                 rec.violation(f'C12|error-does-not-name-the-element|{where}',
@@ -390,6 +409,20 @@ def _structural(rec):
             choice_set=[1, 2, 3], tuple_of_nests=(OneNestForCrossNestedLogit(mu(), {1: 1.0, 2: 0.5, 3: 1.0, 7: 1.0}, 'a'),
                                                   OneNestForCrossNestedLogit(ex.Beta('mu2', 1.2, 1, 10, 0), {2: 0.5}, 'b'))), ex.Variable('choice'))),
     }
+    # tables that become invalid after the Database was created and already used (NaN introduced by a defined variable)
+    def nan_history(kind):
+        d = make_database(panel=(kind == 'panel-then-nan'))
+        f0 = ex.Beta('b1', 0.5, None, None, 0) * ex.Variable('x2')
+        if kind == 'panel-then-nan':
+            f0 = ex.log(ex.PanelLikelihoodTrajectory(ex.exp(f0)))
+        if kind == 'used-then-nan':
+            make_biogeme(d, f0)                      # a first model on the same Database
+        d.define_variable('lg', ex.log(ex.Variable('x1') - 1.75))   # NaN where x1 < 1.75
+        b = make_biogeme(d, f0)
+        return b.calculate_likelihood(np.array(b.id_manager.free_betas_values, dtype=float), scaled=False)
+
+    for kind in ('fresh-then-nan', 'panel-then-nan', 'used-then-nan'):
+        _expect_refusal(rec, f'nan-introduced-after-creation:{kind}', 'Database+BIOGEME', lambda kind=kind: nan_history(kind))
     # valid counterparts are accepted
     valid = {
         'logit': lambda e: via(e, models.loglogit(V(), av(), ex.Variable('choice'))),
